@@ -7,12 +7,25 @@ BASELINE = ("cd /repo && env -u QUICKADD_VERIF /venv/bin/python -m pytest -ra -q
             "--continue-on-collection-errors")
 
 # id -> (level, technique, level text, level note, design ref)
+DEN = ("TLA+ spec (Calendar/Rules/Denote) model-checked by TLC over the reference-time sweep; rule-row and end-to-end traces of "
+       "the real parser judged by TLC trace modules (RulesTrace, DenoteTrace)")
+NOTE = ("trusts: TLC; the frozen lexicon (specs/lexicon.json) as the surface syntax of the specification grammar, incl. its homograph "
+        "guards; projections harness/qa.py (artifact -> record); Python datetime/dateutil as the implementation's calendar (bound to "
+        "Calendar.tla day by day); minute resolution of reference times")
+
+
+def den(text, ref):
+    return ("model_checking", DEN, text, NOTE, ref)
+
+
 CHECKS = {
-    "C03": ("model_checking",
-            "TLA+ spec (Calendar/Rules/Denote) model-checked by TLC over every day of 2016-2043; rule-row and end-to-end traces of the real parser judged by TLC trace modules",
-            "TLC proves RuleDenote = Denote (declarative calendar definition from the property text) for every reference day of the 28-year cycle x boundary minutes; the same TLA+ operators then judge (a) every relative-day production of the tree called directly on every day of the cycle and (b) ctparse() on every surface form of the frozen lexicon at boundary dates. Exhaustive at model level, exhaustive per-day at rule level, sampled at text level.",
-            "trusts: TLC; the frozen lexicon as the surface syntax; Python datetime as the implementation's calendar (bound to Calendar.tla on every day of the cycle); minute resolution of reference times",
-            "DESIGN.md section 4 (C03)"),
+    "C03": den("TLC proves RuleDenote = Denote (declarative calendar definition from the property text) for every reference day of the 28-year cycle x boundary minutes; the same TLA+ operators then judge (a) every relative-day production of the tree called directly on the days of the cycle and (b) ctparse() on every surface form of the frozen lexicon at boundary dates (incl. the omitted-reference-time default). Exhaustive at model level, per-day at rule level, sampled at text level.", "DESIGN.md section 4 (C03)"),
+    "C04": den("TLC proves for every day of 2016-2043 that the latent productions return the declarative nearest-future date (never before today, written fields preserved, nothing matching in between; stated roll/stay conventions) for all weekdays, days of month, day+month pairs and parts of day; the real productions are called on the cycle and judged against the same operators, and ctparse() on all lexicon forms at boundary dates.", "DESIGN.md section 4 (C04)"),
+    "C05": den("TLC proves for every valid date 1990-2029 x reference times that every notation's derivation yields exactly that date (and date+clock), independent of the reference time; productions called directly on the dates, ctparse() on all notations x reference times, judged by TLC.", "DESIGN.md section 4 (C05)"),
+    "C06": den("TLC checks all 1440 minutes x all clock notations at rule level and the latent anchoring (first such minute strictly after the reference minute, < 24 h) incl. equality and roll-over cases; the real productions and the real post-processing step are called for all minutes, ctparse() on every notation, judged by TLC. One recorded finding (bare hour + part of day).", "DESIGN.md section 4 (C06)"),
+    "C07": den("TLC checks all 24x24 hour pairs x minute variants x contexts (date, latent, bare) for from=A, to=B after the stated wrap, from<to, <=24h, ordered/reversed date pairs and the four half-open forms, on Rules composed with Postprocess; real productions called on all pairs; ctparse() on all pairs x joiners x contexts judged by TLC.", "DESIGN.md section 4 (C07)"),
+    "C08": den("TLC checks N in 0..120 x units, all number words, half forms, date+for+duration on every start date of the cycle with dateutil month clipping, and the duration/date-range consistency rule; every number word x unit word of the frozen lexicon goes through the tree's own pattern and production (token meaning from the lexicon), ctparse() end to end, judged by TLC.", "DESIGN.md section 4 (C08)"),
+    "C20": den("TLC checks the gluing rules for every dated value x every minute (homomorphism at rule level); end to end, three parses per case (day, clock with latent off, both) over day forms x clock notations x orders x connectors are judged by the TLA+ predicate GlueOK and the declarative day/clock denotations. Rejections are diagnosed (exhaustive re-parse) so that beam-pruning findings are told from composition defects. Three recorded findings (depth-limit pruning).", "DESIGN.md section 4 (C20)"),
 }
 
 NOT_YET = {}
